@@ -368,6 +368,14 @@ var memShapes = []memShape{
 	{"escapes_at_every_nesting_level", func(n int) []seg { return nestSegs(`["\n",`, "1", "]", n) }},
 	{"escaped_keys_at_every_level", func(n int) []seg { return nestSegs(`{"\n":`, "1", "}", n) }},
 	{"escape_then_long_tail", func(n int) []seg { return []seg{{[]byte(`["\n",`), 1}, {[]byte(`"abcdefgh",`), n}, {[]byte(`1]`), 1}} }},
+	{"long_string_of_unicode_escapes", func(n int) []seg { return []seg{{[]byte(`["`), 1}, {[]byte(`\u00e9`), n}, {[]byte(`"]`), 1}} }},
+	{"long_string_of_surrogate_pairs", func(n int) []seg { return []seg{{[]byte(`"`), 1}, {[]byte(`\ud83d\ude00`), n}, {[]byte(`"`), 1}} }},
+	{"long_string_of_simple_escapes", func(n int) []seg { return []seg{{[]byte(`{"k":"`), 1}, {[]byte(`\n`), n}, {[]byte(`"}`), 1}} }},
+	{"long_plain_string_after_escape", func(n int) []seg { return []seg{{[]byte(`["\t`), 1}, {[]byte(`abcdefgh`), n}, {[]byte(`"]`), 1}} }},
+	{"long_escaped_key", func(n int) []seg { return []seg{{[]byte(`{"`), 1}, {[]byte(`\u0041b`), n}, {[]byte(`":1}`), 1}} }},
+	{"many_numbers_long_mantissa", func(n int) []seg {
+		return []seg{{[]byte("["), 1}, {[]byte("1.00000000000000011102230246251565404236316680908203125,"), n}, {[]byte("0]"), 1}}
+	}},
 	{"escapes_wide_in_objects", func(n int) []seg { return []seg{{[]byte("{"), 1}, {[]byte(`"\t":"\n",`), n}, {[]byte(`"z":1}`), 1}} }},
 }
 
@@ -383,6 +391,8 @@ var memFns = []memFn{
 	{"SkipValueFast(nil)", func(d []byte) { rjson.SkipValueFast(d, nil) }},
 	{"HandleArrayValues0(nil)", func(d []byte) { rjson.HandleArrayValues(d, zeroArr, nil) }},
 	{"HandleObjectValues0(nil)", func(d []byte) { rjson.HandleObjectValues(d, zeroObj, nil) }},
+	{"ReadString(nil)", func(d []byte) { rjson.ReadString(d, nil) }},
+	{"ReadStringBytes(nil)", func(d []byte) { rjson.ReadStringBytes(d, nil) }},
 }
 
 func genMemC20(c *genCtx, sw *shardWriter, j *jb) {
@@ -394,7 +404,11 @@ func genMemC20(c *genCtx, sw *shardWriter, j *jb) {
 	}
 	for _, sh := range memShapes {
 		for fi, fn := range memFns {
-			if fi > 0 && !(strings.HasPrefix(sh.name, "nested") || sh.name == "ints" || strings.HasPrefix(sh.name, "escapes_at")) {
+			isStr := strings.HasPrefix(fn.name, "ReadString")
+			if isStr != (sh.name == "long_string_of_surrogate_pairs") && (isStr || sh.name == "long_string_of_surrogate_pairs") {
+				continue // the string readers read the bare-string shape; the other functions everything else
+			}
+			if fi > 0 && !isStr && !(strings.HasPrefix(sh.name, "nested") || sh.name == "ints" || strings.HasPrefix(sh.name, "escapes_at") || strings.HasPrefix(sh.name, "long_")) {
 				continue
 			}
 			setCurrent("mem " + sh.name + " " + fn.name)
